@@ -786,8 +786,14 @@ where
     P: AsRef<Path>,
 {
     let file = log::open(utils::hintfile_name(&path, fileid))?;
+    let datafile_len = fs::metadata(utils::datafile_name(&path, fileid))?.len();
     let mut hintfile_iter = LogIterator::new(file)?;
     while let Some((_, entry)) = hintfile_iter.next::<HintFileEntry>()? {
+        // After a power loss, the hint file can be ahead of its data file. Entries that were
+        // not persisted in the data file are ignored, their values are still in the stale files
+        if entry.pos.saturating_add(entry.len) > datafile_len {
+            continue;
+        }
         let keydir_entry = KeyDirEntry {
             fileid,
             len: entry.len,
